@@ -24,8 +24,10 @@ REPO = os.environ.get('VERIF_REPO', '/repo')
 # VERIF_LEAN: another copy of the lake project (used while the project in /verif is being edited); default: /verif/lean
 LEAN = os.environ.get('VERIF_LEAN') or os.path.join(VERIF, 'lean')
 DRIVER = os.path.join(LEAN, '.lake', 'build', 'bin', 'dtml-driver')
-EVID = os.path.join(VERIF, 'evidence')
-REPLAYS = os.path.join(VERIF, 'replays')
+# VERIF_EVID / VERIF_REPLAYS: where a run against a seeded change (bin/seedpar) writes, so that the committed evidence of the
+# clean tree is never overwritten by it
+EVID = os.environ.get('VERIF_EVID') or os.path.join(VERIF, 'evidence')
+REPLAYS = os.environ.get('VERIF_REPLAYS') or os.path.join(VERIF, 'replays')
 ALLOWED_AXIOMS = {'propext', 'Classical.choice', 'Quot.sound'}
 FORBIDDEN = re.compile(
     r'\bsorry\b|\badmit\b|^\s*axiom\s|native_decide|bv_decide|implemented_by|'
